@@ -393,14 +393,19 @@ class Unit:
             ra, rb, rsig, rtail = fn.region
             full = rf.text[bo:end]
             def _find(anchor):
+                # 'after:<anchor>': the region starts on the line after the anchored statement (so the first statement of
+                # the region itself is not part of the anchor and may change freely)
+                after = anchor.startswith('after:')
+                if after:
+                    anchor = anchor[6:]
                 if anchor.startswith('re:'):
                     ms = list(re.finditer(anchor[3:], full))
                     if len(ms) != 1:
                         raise ExtractError(f"{file}: {fn.name}: region anchor {anchor!r} matches {len(ms)} times")
-                    return ms[0].start()
+                    return (full.index('\n', ms[0].end()) + 1) if after else ms[0].start()
                 if full.count(anchor) != 1:
                     raise ExtractError(f"{file}: {fn.name}: region anchor {anchor!r} occurs {full.count(anchor)} times")
-                return full.index(anchor)
+                return (full.index('\n', full.index(anchor) + len(anchor)) + 1) if after else full.index(anchor)
             ia, ib = _find(ra), _find(rb)
             if not ia < ib:
                 raise ExtractError(f"{file}: {fn.name}: region anchors out of order")
